@@ -34,6 +34,7 @@ type Config struct {
 	MaxDecisions    int
 	MaxConcretize   int
 	DurationWitness bool
+	Race            bool
 	MaxPreempt      int
 	MaxSteps        int64
 	MaxDepth        int
@@ -123,6 +124,7 @@ func cmdRun(mode string, args []string) int {
 	fs.IntVar(&cfg.MaxDecisions, "max-decisions", 400, "decisions per path (unwinding bound)")
 	fs.IntVar(&cfg.MaxConcretize, "max-concretize", 300, "values per concretisation")
 	fs.BoolVar(&cfg.DurationWitness, "duration-witness", false, "abstraction: a symbolic duration passed to context.WithTimeout is represented by one witness per sign class")
+	fs.BoolVar(&cfg.Race, "race", false, "happens-before data-race monitor on the accesses of the code under test (race.go)")
 	fs.IntVar(&cfg.MaxPreempt, "preempt", 0, "delay bound: scheduling deviations (incl. timer firings while threads can run) per path")
 	fs.Int64Var(&cfg.MaxSteps, "max-steps", 20000000, "instructions per path")
 	fs.IntVar(&cfg.MaxDepth, "max-depth", 400, "call depth")
@@ -338,6 +340,9 @@ func newRun(cfg *Config, sol *Solver, prefix []Decision, pinned []uint64) *Run {
 	r.atomicVals = map[*value]value{}
 	r.timerOf = map[*value]*timer{}
 	r.finished = make(chan struct{})
+	if cfg.Race {
+		r.raceInit()
+	}
 	if pinned != nil {
 		r.pinEnv = map[string]uint64{}
 	}
@@ -490,7 +495,8 @@ func explore(cfg *Config) *EntryResult {
 				res.Events = append(res.Events, e)
 			}
 		}
-		if !r.pruned && len(res.Samples) < 5 && len(r.events) == 0 && (res.Paths < 3 || res.Paths%97 == 0) {
+		// path witnesses for the native differential run: completed, non-violating paths only
+		if !r.pruned && len(r.violations) == 0 && len(res.Samples) < 5 && len(r.events) == 0 && (res.Paths < 3 || res.Paths%97 == 0) {
 			if vec, ok := r.model(nil); ok {
 				res.Samples = append(res.Samples, Sample{Vector: vec, Decisions: decString(r.decs), Reach: sortedKeys(r.reach)})
 			}
